@@ -303,3 +303,59 @@ def _vec_body(ue, nu, T):
     py = getattr(py, 'py_func', None)
     lam = getattr(getattr(ue._convert_lamb, '_dispatcher', None), 'py_func', None)
     return py(lam(nu), T)
+
+
+@harness('C02', 'integral_ktables',
+         quick=[dict(n=2, nw=1, ng=2, nq=2), dict(n=3, nw=1, ng=2, nq=1)],
+         thorough=[dict(n=2, nw=2, ng=2, nq=2), dict(n=3, nw=1, ng=3, nq=2), dict(n=4, nw=1, ng=2, nq=2)],
+         functions=FUNCS + ['taurex.model.emission:EmissionModel.evaluate_emission_ktables', 'taurex.model.emission:contribute_ktau_emission',
+                            'taurex.contributions.absorption:contribute_ktau'],
+         stubs=STUBS + ['real Gauss-Legendre nodes (concrete)', 'AbsorptionContribution state (k-coefficients, weights) constructed directly',
+                        'ln UF with exp(ln x) = x'],
+         outside=['non-molecular contributions mixed into the k-table path'])
+def integral_ktables(ctx, n, nw, ng, nq):
+    """Correlated-k mode: real evaluate_emission_ktables (+contribute_ktau, contribute_ktau_emission) with arbitrary
+    non-negative k-coefficients and weights summing to one: intensity per quadrature angle = surface term + sum_l
+    B(T_l)/pi (t(l+1)-t(l)) with t(l) = sum_g w_g exp(-tau_g(l)/mu) and tau_g the column above level l."""
+    from taurex.model import EmissionModel
+    import taurex.model.emission as em
+    import taurex.data.stellar.star as st
+    from taurex.cache import GlobalCache
+    from .c20 import _absorption, _weights, _ktable
+    from .c01 import _atmosphere
+    Rp, Rs, dz, z, rho = _atmosphere(ctx, n)
+    T = ctx.reals('T', n, gt=0, hint=(300, 3000))
+    wn = np.arange(1, nw + 1) * 1000.0
+    w = _weights(ctx, ng)
+    k = _ktable(ctx, None, ng, False, n, nw)
+    envs = [patched(em, black_body=_bb_stub), patched(st, black_body=_bb_stub)] if ctx.sym else []
+    for e in envs:
+        e.__enter__()
+    old = GlobalCache()['opacity_method']
+    try:
+        GlobalCache()['opacity_method'] = 'ktables'
+        m = state_model(EmissionModel, n, wn, Rp, Rs, z, dz, rho, T=T, Tstar=5000.0, ngauss=nq)
+        c = _absorption(k, w)
+        m.add_contribution(c)
+        c.prepare(m, wn)
+        I, _mu, _w, _ = m.evaluate_emission(wn, False)
+    finally:
+        GlobalCache()['opacity_method'] = old
+        for e in reversed(envs):
+            e.__exit__(None, None, None)
+    mu = m._mu_quads
+    ctx.goal('shape', np.shape(I) == (nq, nw))
+    for q in range(nq):
+        for v in range(nw):
+            def t(l):
+                acc = 0.0
+                for g in range(ng):
+                    tau = 0.0
+                    for l2 in range(l, n):
+                        tau = tau + k[l2, v, g] * rho[l2] * dz[l2]
+                    acc = acc + w[g] * ctx.exp(-tau * (1.0 / mu[q]))
+                return acc
+            spec = _B(ctx, wn[v], T[0]) / math.pi * t(0)
+            for l in range(n):
+                spec = spec + _B(ctx, wn[v], T[l]) / math.pi * ((t(l + 1) if l + 1 < n else 1.0) - t(l))
+            ctx.goal('intensity[%d,%d]' % (q, v), ctx.eq(I[q, v], spec, scale=None if ctx.sym else 1e-30))
